@@ -1206,7 +1206,106 @@ def c07_18(ctx):
     return shared_obligations(ctx, ["script", "op", "timelock"], "the result would depend on something other than the arguments and the object's current state")
 
 
+def c07_19(ctx):
+    """OP_PICK / OP_ROLL: the operand n selects the n-th element below it, n = 0 being the top one: PICK copies it, ROLL moves it.  Both handlers
+    are evaluated for every n in -1..5 (zero in its three encodings '', 00, 80) on stacks of 0..5 elements below the operand -- bounded in the
+    depth; the handlers treat every n alike"""
+    from sa.cells import Evaluator, Raised, Undecided
+    out = []
+    m, node, table = table_names(ctx.repo, "op", "OP_CODE_FUNCTIONS")
+    for code, name in ((121, "OP_PICK"), (122, "OP_ROLL")):
+        hname = table.get(code)
+        fn = m.functions.get(hname or "")
+        if fn is None:
+            out.append(ctx.err("op:OP_CODE_FUNCTIONS[%d]" % code, "%s has no handler" % name, node, m))
+            continue
+        spec = "op:" + hname
+        bad = None
+        cells = 0
+        try:
+            for depth in range(0, 6):
+                below = [bytes([0x10 + i]) for i in range(depth)]
+                for n_val, enc in [(-1, b"\x81"), (0, b""), (0, b"\x00"), (0, b"\x80"), (1, b"\x01"), (2, b"\x02"), (3, b"\x03"), (4, b"\x04"), (5, b"\x05")]:
+                    cells += 1
+                    st = list(below) + [enc]
+                    try:
+                        r = Evaluator(ctx.repo).call(spec, [st])
+                    except Raised:
+                        r = False
+                    if n_val < 0 or n_val >= depth:
+                        ok = r is False
+                        want_txt = "failure"
+                    else:
+                        want = list(below) + [below[-n_val - 1]] if code == 121 else below[:depth - n_val - 1] + below[depth - n_val:] + [below[-n_val - 1]]
+                        ok = r is True and st == want
+                        want_txt = "[%s]" % " ".join(e_.hex() for e_ in want)
+                    if not ok:
+                        bad = "%s with n = %d (operand %s) on a stack of %d element(s) below it gives %s and leaves [%s]; consensus: %s" % (
+                            name, n_val, enc.hex() or "''", depth, r, " ".join(e_.hex() for e_ in st), want_txt)
+                        break
+                if bad:
+                    break
+        except Undecided as u:
+            out.append(ctx.err(spec, "%s not evaluable: %s" % (name, u), fn, m))
+            continue
+        ctx.count("cells", cells)
+        out.append(ctx.bad(spec, bad, fn, m, key="pick-roll:" + name) if bad else
+                   ctx.ok(spec, "%s selects the n-th element below the operand for every n, 0 included (%d cells)" % (name, cells), fn, m, key="pick-roll:" + name))
+    return out
+
+
+def c07_20(ctx):
+    """the truth of a stack element has no size limit: an element of any length is false exactly when all its bytes are zero (the last may be
+    0x80).  OP_VERIFY, OP_IFDUP, OP_IF and OP_NOTIF are evaluated with top elements of 0, 1, 4, 5, 20, 32 and 520 bytes in the three patterns
+    {all zero, negative zero, some other byte set}: hashes and keys left on the stack are ordinary true values"""
+    from sa.cells import Evaluator, Raised, Undecided
+    out = []
+    m, node, table = table_names(ctx.repo, "op", "OP_CODE_FUNCTIONS")
+    elements = []
+    for ln in (0, 1, 4, 5, 20, 32, 520):
+        elements.append((bytes(ln), False))
+        if ln:
+            elements.append((bytes(ln - 1) + b"\x80", False))
+            elements.append((bytes(ln - 1) + b"\x01", True))
+            elements.append((b"\x01" + bytes(ln - 1), True))
+    for code, name in ((105, "OP_VERIFY"), (115, "OP_IFDUP"), (99, "OP_IF"), (100, "OP_NOTIF")):
+        hname = table.get(code)
+        fn = m.functions.get(hname or "")
+        if fn is None:
+            out.append(ctx.err("op:OP_CODE_FUNCTIONS[%d]" % code, "%s has no handler" % name, node, m))
+            continue
+        spec = "op:" + hname
+        bad = None
+        try:
+            for el, truth in elements:
+                ctx.count("cells")
+                st = [b"\xaa", el]
+                items = [0x51, 103, 0x52, 104, 0x53]
+                try:
+                    r = Evaluator(ctx.repo).call(spec, [st, items] if code in (99, 100) else [st])
+                except Raised as x:
+                    r = "raises %s" % x.name
+                if code == 105:
+                    ok = (r is True and st == [b"\xaa"]) if truth else (r is False)
+                elif code == 115:
+                    ok = r is True and st == ([b"\xaa", el, el] if truth else [b"\xaa", el])
+                else:
+                    takes_then = truth if code == 99 else not truth
+                    ok = r is True and st == [b"\xaa"] and items == ([0x51, 0x53] if takes_then else [0x52, 0x53])
+                if not ok:
+                    bad = "%s with a %d-byte top element (%s…, %s) gives %s" % (name, len(el), el.hex()[:12], "true" if truth else "false", r)
+                    break
+        except Undecided as u:
+            out.append(ctx.err(spec, "%s not evaluable: %s" % (name, u), fn, m))
+            continue
+        out.append(ctx.bad(spec, bad + ": the truth of an element is decided for any length (a 32-byte hash left on the stack is a true value)", fn, m, key="truth-any-size:" + name)
+                   if bad else ctx.ok(spec, "%s decides the truth of elements of every size (%d elements up to 520 bytes)" % (name, len(elements)), fn, m, key="truth-any-size:" + name))
+    return out
+
+
 OBLIGATIONS = [
+    ("C07.19", "CELLS pick/roll (bounded)", c07_19),
+    ("C07.20", "CELLS truth of long elements", c07_20),
     ("C07.18", "SHARED", c07_18),
     ("C07.17", "SET-ORDER", c07_17),
     ("C07.16", "MEMO", c07_16),
